@@ -1,8 +1,10 @@
 /-
 Driver ops of property C09 (output backends, `LaTeXParser`, `Text.from_latex`).
 
-  render     {"tree": raw tree, "backend": "html"|"markdown"|"latex"|"plaintext", "observed": text|null}
-             out  = {"text": what the model of `build(tree).render(Backend())` returns} | "KeyError"
+  render     {"tree": raw tree, "backend": "html"|"markdown"|"latex"|"plaintext", "observed": text|null,
+              "encoding": the encoding the LaTeX backend is created with | null}
+             out  = {"text": what the model of `build(tree).render(Backend())` returns} | "KeyError" | "EncodeError" |
+                    "unmodelled-encoding"
              spec = the string of pairs the tree denotes, its plain text, the token-level rendering (latex, markdown)
                     with the verdict of the token reader, and the spec *readers* applied to `observed` (the text the
                     real backend produced): `htmlChars`, `Md.unescape`-free checks, brace depth
@@ -10,8 +12,9 @@ Driver ops of property C09 (output backends, `LaTeXParser`, `Text.from_latex`).
               "brief": true = do not return the tree (deeply nested values)}
              out  = {"tree": normal-form tree, "latex": its rendering with the LaTeX backend} | {"error": [lineno, pos]}
              spec = where the decoded value stops being balanced, its depth sequence, the depth sequence of `observed`
-  document   {"entries": [{"key", "label", "tree"}], "backend", "preamble", "encoding", "php_extra"}
-             out  = {"text": everything `write_to_stream` writes} | "KeyError"
+  document   {"entries": [{"key", "label", "tree"}], "backend", "preamble", "encoding", "php_extra", "via": "stream"|"file"}
+             out  = {"text": everything `write_to_stream` writes / the text of the file `write_to_file` wrote} | "KeyError" |
+                    "EncodeError" | "unmodelled-encoding" | "unrepresentable" (the file's encoding lacks a character)
              spec = per entry the plain text
 
 Raw trees use the wire format of C08 (`Drv/C08.lean`).
@@ -67,13 +70,24 @@ def elemRuns : List (Char × List Str) → Option (List Str × Str) → List Jso
     else arr [strs st', strToJson cs.reverse] :: elemRuns r (some (st, [c]))
 
 /-- the symbol table the plain text of a rendering is stated with: what the symbols *mean* for HTML (entities are
-read back as characters), the backend's own table for the others -/
+read back as characters), the fixed plain equivalents for plain text, the fixed LaTeX forms; Markdown: the backend's own
+table (the oracle reads the output with a Markdown reader instead) -/
 def symTable (name : String) : Str → Option Str :=
   match name with
   | "html" => Spec.symbolText
   | "markdown" => fun n => Gen.mdSymbols.lookup n
-  | "latex" => fun n => Gen.latexSymbols.lookup n
-  | _ => fun n => Gen.plainSymbols.lookup n
+  | "latex" => fun n => Spec.latexSymbolSpec.lookup n
+  | _ => Spec.plainSymbol
+
+/-- the encoding a backend is created with: the requested one or `pybtex.io.get_default_encoding()` -/
+def encodingOf (j : Json) : Except String Str := do
+  match ← optStr j "encoding" with
+  | some e => pure e
+  | none => pure Gen.defaultEncoding
+
+def errJ : Backends.Err → Json
+  | .keyError => Json.str "KeyError"
+  | .encodeError => Json.str "EncodeError"
 
 def stringParts : RT → List Str
   | t => (go t [])
@@ -104,7 +118,22 @@ def render (j : Json) : Except String Json := do
   let b ← backendOf name
   let observed ← optStr j "observed"
   let t := build raw
-  let out : Json := match RT.render b t with
+  let encName ← encodingOf j
+  let E := Latex.encodableIn encName
+  let out : Json :=
+    if name == "latex" then
+      match E with
+      | none => Json.str "unmodelled-encoding"
+      | some E =>
+        match RT.render (latexE (Latex.latexcodecEncodeE E)) t with
+        | none => Json.str "KeyError"
+        | some (.error e) => errJ e
+        | some (.ok r) => obj [("text", strToJson r)]
+    else match RT.render b t with
+      | none => Json.str "KeyError"
+      | some r => obj [("text", strToJson r)]
+  -- the total model of the default (UTF-8) LaTeX backend, which the theorems about `latex encode` talk about
+  let outTotal : Json := match RT.render b t with
     | none => Json.str "KeyError"
     | some r => obj [("text", strToJson r)]
   let f := sem [] raw
@@ -120,6 +149,7 @@ def render (j : Json) : Except String Json := do
     | none => []
     | some o =>
       [("observed_balanced", Json.bool (balanced o)),
+       ("observed_encodable", Json.bool (match E with | some E => o.all E | none => true)),
        ("observed_depths_len", optJ nat ((Tex.depths o).map List.length))] ++
       (if name == "html" then
         [("observed_html_chars", optStrJ (htmlChars o)),
@@ -133,6 +163,13 @@ def render (j : Json) : Except String Json := do
           (plainPairs (symTable name) f)),
       ("html_ok", Json.bool (raw.allKinds Html.kindOK)),
       ("empty", Json.bool (len raw == 0)),
+      ("out_utf8_total", outTotal),
+      ("strings_encodable", Json.bool (match E with
+          | some E => ss.all fun s => (Latex.latexcodecEncodeE E s).isSome
+          | none => true)),
+      ("markup_encodable", Json.bool (match E with
+          | some E => (urlsOf t).all (fun u => u.all E) && raw.allKinds (fun k => match k with | .tag n => n.all E | _ => true)
+          | none => true)),
       ("strings_balanced", Json.bool (ss.all fun s => balanced (encode s))),
       ("urls_balanced", Json.bool ((urlsOf t).all balanced)),
       ("md_strings", arr (ss.map fun s => arr [strToJson s, strToJson (s.flatMap (Md.escChar Md.escapable)),
@@ -174,19 +211,38 @@ def document (j : Json) : Except String Json := do
   let raws ← entriesJ.mapM fun e => do C08.tree (← e.getObjVal? "tree")
   let preamble ← getStr j "preamble"
   let encoding ← optStr j "encoding"
+  let encName ← encodingOf j
+  let E := Latex.encodableIn encName
   let php ← C08.optBool j "php_extra"
+  let via ← optStr j "via"
   let o ← match name with
     | "html" => pure (htmlOutput (match encoding with | some e => e | none => Gen.defaultEncoding))
     | "markdown" => pure (markdownOutput (php == some true))
     | "latex" => pure (latexOutput encode)
     | "plaintext" => pure plaintextOutput
     | _ => throw s!"unknown backend {name}"
-  let out : Json := match writeToStream o ⟨entries, preamble⟩ with
-    | .error .keyError => Json.str "KeyError"
-    | .ok s => obj [("text", strToJson s)]
+  let bib : FormattedBibliography := ⟨entries, preamble⟩
+  let written : Option (Except Backends.Err Str) :=
+    if name == "latex" then E.map fun E => writeToStreamE (Latex.latexcodecEncodeE E) bib
+    else some (writeToStream o bib)
+  let final : Option (Option (Except Backends.Err Str)) :=
+    if via == some "file".toList then
+      match written, E with
+      | some w, some E => some (writeToFile E w)
+      | _, _ => none
+    else written.map some
+  let out : Json := match final with
+    | none => Json.str "unmodelled-encoding"
+    | some none => Json.str "unrepresentable"
+    | some (some (.error e)) => errJ e
+    | some (some (.ok s)) => obj [("text", strToJson s)]
   pure (obj [("out", out),
     ("spec", obj [("plain", arr (raws.map fun r => optStrJ (plainText (symTable name) (sem [] r)))),
-                  ("html_ok", Json.bool (raws.all fun r => r.allKinds Html.kindOK))])])
+                  ("html_ok", Json.bool (raws.all fun r => r.allKinds Html.kindOK)),
+                  ("sem", arr (raws.map fun r => C08.flatJ (sem [] r))),
+                  ("encodable", Json.bool (match final, E with
+                      | some (some (.ok s)), some E => s.all E
+                      | _, _ => true))])])
 
 /-- driver ops of this property: (op name, handler) -/
 def handlers : List (String × (Json → Except String Json)) :=
